@@ -27,6 +27,26 @@ func (*myErr) Error() string { return "myErr" }
 
 type st struct{ N int }
 
+// Column types that IMPLEMENT context.Context without being it. As column /
+// parameter types they are ordinary types: the optional extra argument of a
+// user function is documented as "of type context.Context".
+type traceCtx interface {
+	context.Context
+	Trace() string
+}
+
+// ctxStruct is a struct type carrying the four context methods.
+type ctxStruct struct{ context.Context }
+
+type tracer struct{ context.Context }
+
+func (tracer) Trace() string { return "t" }
+
+var (
+	aTraceCtx  traceCtx = tracer{context.Background()}
+	aCtxStruct          = ctxStruct{context.Background()}
+)
+
 func init() {
 	frame.RegisterOps(func(s []hkey) frame.Ops {
 		return frame.Ops{HashWithSeed: func(i int, seed uint32) uint32 { return uint32(s[i].K)*2654435761 ^ seed }}
@@ -45,6 +65,8 @@ var (
 	tStrings = reflect.TypeOf([]string(nil))
 	tHkey    = reflect.TypeOf(hkey{})
 	tSkey    = reflect.TypeOf(skey{})
+	tTrace   = reflect.TypeOf((*traceCtx)(nil)).Elem()
+	tCtxStr  = reflect.TypeOf(ctxStruct{})
 	tError   = reflect.TypeOf((*error)(nil)).Elem()
 	tCtx     = reflect.TypeOf((*context.Context)(nil)).Elem()
 	tSlice   = reflect.TypeOf((*bigslice.Slice)(nil)).Elem()
@@ -63,6 +85,8 @@ var caps = map[reflect.Type]capability{
 	tStrings: {false, false},
 	tHkey:    {true, false},
 	tSkey:    {false, true},
+	tTrace:   {false, false},
+	tCtxStr:  {false, false},
 }
 
 // ranCount counts executions of any user function of the universe. No
